@@ -247,6 +247,41 @@ func writeDoc(spec docSpec) (w *written, err error) {
 		"Sub": obj.Dict{"T": randString(rnd), "E": obj.Str{}}, "Next": obj.Ref{Num: refA.Number(), Gen: refA.Generation()}}); err != nil {
 		return w, err
 	}
+	// long containers: arrays of 31..33 and of 255..340 elements and a
+	// dictionary of 300 entries, strings at every position (a formatter that
+	// batches long containers must still encrypt every string)
+	{
+		mk := func(n int) obj.Array {
+			a := make(obj.Array, 0, n)
+			for i := 0; i < n; i++ {
+				switch i % 4 {
+				case 0, 3:
+					a = append(a, randString(rnd))
+				case 1:
+					a = append(a, obj.Int(i))
+				default:
+					a = append(a, obj.Array{randString(rnd)})
+				}
+			}
+			return a
+		}
+		if err = put("long-array", out.Alloc(), mk(255+rnd.Intn(86))); err != nil {
+			return w, err
+		}
+		if err = put("dict-with-mid-array", out.Alloc(), obj.Dict{"A": mk(31 + rnd.Intn(3)), "S": randString(rnd)}); err != nil {
+			return w, err
+		}
+		big := obj.Dict{}
+		for i := 0; i < 300; i++ {
+			big[obj.Name(fmt.Sprintf("K%03d", i))] = randString(rnd)
+		}
+		if err = put("long-dict", out.Alloc(), big); err != nil {
+			return w, err
+		}
+		if err = putStream("stream-dict-with-long-array", obj.Dict{"Arr": mk(257 + rnd.Intn(20))}, body(20)); err != nil {
+			return w, err
+		}
+	}
 	// a stream with strings in its dictionary, unfiltered
 	lens := []int{0, 1, 15, 16, 17, 32, 100, 1000}
 	if err = putStream("stream", obj.Dict{"Desc": randString(rnd), "Arr": obj.Array{randString(rnd)}}, body(lens[rnd.Intn(len(lens))])); err != nil {
